@@ -49,6 +49,12 @@ pub fn menu() -> Vec<Rec> {
         Rec::new("a.o.t.", 300, c::IN, t::TXT, Rd::Txt(vec![b"".to_vec(), b"q\"b\\s".to_vec(), b"\n\t\r\x00\xff l".to_vec()])),
         Rec::new("a.o.t.", 300, c::IN, t::TXT, Rd::Txt(vec![s255.clone()])),
         Rec::new("a.o.t.", 300, c::IN, t::TXT, Rd::Txt(vec![b"\\#".to_vec(), b"@".to_vec(), b"$TTL".to_vec(), b"7".to_vec()])),
+        // strings and names that merely start like a special token (the
+        // generic-RDATA marker, the origin sign)
+        Rec::new("a.o.t.", 300, c::IN, t::TXT, Rd::Txt(vec![b"#tag".to_vec(), b"@x".to_vec()])),
+        Rec::new("a.o.t.", 300, c::IN, t::HINFO, Rd::Hinfo(b"#1".to_vec(), b"@".to_vec())),
+        Rec::new("a.o.t.", 300, c::IN, t::NS, Rd::Name(wname("#1.ns.o.t."))),
+        Rec::new("@x.o.t.", 300, c::IN, t::MX, Rd::Mx(5, wname("@y.o.t."))),
         Rec::new("a.o.t.", 300, c::HS, t::TXT, Rd::Txt(vec![b"hesiod".to_vec()])),
         Rec::new("a.o.t.", 300, c::IN, t::HINFO, Rd::Hinfo(b"cpu".to_vec(), b"o s".to_vec())),
         Rec::new("a.o.t.", 300, c::IN, t::HINFO, Rd::Hinfo(b"".to_vec(), b";".to_vec())),
